@@ -366,11 +366,33 @@ def int_checked(ctx, args, st):
     return g()
 
 
-@model(r'^(?:core::num::<impl (\w+)>|(\w+))::(wrapping_add|wrapping_sub|wrapping_mul|wrapping_neg|wrapping_rem|wrapping_div)$')
+@model(r'^(?:core::num::<impl (\w+)>|(\w+))::(wrapping_add|wrapping_sub|wrapping_mul|wrapping_neg|wrapping_rem|wrapping_div|wrapping_rem_euclid|wrapping_div_euclid|rem_euclid|div_euclid|wrapping_abs|unsigned_abs|signum)$')
 def int_wrapping(ctx, args, st):
     a = args[0]
     if not isinstance(a, Int): return None
     op = ctx.callee.rsplit('::', 1)[-1]
+    if op == 'wrapping_abs': return ret(st, Int(z3.simplify(z3.If(a.e < 0, -a.e, a.e)), a.ty))
+    if op == 'unsigned_abs': return ret(st, Int(z3.simplify(z3.If(a.e < 0, -a.e, a.e)), 'u' + a.ty[1:]))
+    if op == 'signum': return ret(st, Int(z3.simplify(z3.If(a.e > 0, z3.BitVecVal(1, a.bits), z3.If(a.e < 0, z3.BitVecVal(-1, a.bits), z3.BitVecVal(0, a.bits)))), a.ty))
+    if op in ('wrapping_rem_euclid', 'wrapping_div_euclid', 'rem_euclid', 'div_euclid'):
+        b = args[1]
+        mn = z3.BitVecVal(-(1 << (a.bits - 1)), a.bits)
+        def ge():
+            for s2, z in ctx.ex.fork_bool(st, b.e == 0):
+                if z: yield s2, 'panic', 'assert: attempt to divide by zero (euclid)'; continue
+                if not op.startswith('wrapping'):
+                    ovs = list(ctx.ex.fork_bool(s2, z3.And(a.e == mn, b.e == -1)))
+                else:
+                    ovs = [(s2, False)]
+                for s3, ov in ovs:
+                    if ov: yield s3, 'panic', 'assert: attempt to divide with overflow (euclid)'; continue
+                    r = z3.SRem(a.e, b.e); q = a.e / b.e
+                    if 'rem' in op:
+                        # r < 0 ? (b < 0 ? r - b : r + b) : r   (std's definition, wrapping)
+                        yield s3, 'ret', Int(z3.simplify(z3.If(r < 0, z3.If(b.e < 0, r - b.e, r + b.e), r)), a.ty)
+                    else:
+                        yield s3, 'ret', Int(z3.simplify(z3.If(r < 0, z3.If(b.e > 0, q - 1, q + 1), q)), a.ty)
+        return ge()
     if op == 'wrapping_neg': return ret(st, Int(z3.simplify(-a.e), a.ty))
     if op in ('wrapping_rem', 'wrapping_div'):
         b = args[1]
